@@ -210,6 +210,15 @@ def handler_ownership(prog, lib, res, rule, logv="QSlogv", setter="QSlog_set_han
                         hvars.add(strip(x)[2])
     hvars -= {"stdout", "stderr"}
     res.counts["handler_variables"] = sorted(hvars)
+    # the registration is process-wide: a handler variable with thread storage duration would be NULL again in every other
+    # thread of the host, whose library calls would then take the stderr branch
+    for hv in sorted(hvars):
+        for gd in prog.globals.get(hv, []):
+            res.obligations += 1
+            if gd.get("tls"):
+                res.violations.append(Violation(rule, "%s|handler variable %s is thread-local" % (logv, hv), logv, short_loc(gd.get("loc")),
+                                                "the log handler variable %s has thread storage duration: a handler registered by the host is visible only in "
+                                                "the registering thread; library calls made from any other thread find no handler and write to stderr" % hv))
     n = 0
     for g in lib:
         for b, i, e in g.elements():
